@@ -148,6 +148,8 @@ def register(op):
             version, ts, magic, co, ispypy, size, sip = r
             out = {"version": list(version), "timestamp": ts, "magic": magic, "is_pypy": bool(ispypy),
                    "source_size": size, "sip_hash": sip, "native": isinstance(co, types.CodeType)}
+            import xdis.magics as _M
+            out["host_magic"] = _M.PYTHON_MAGIC_INT
             if a.get("header_only"):
                 return out
             opc = get_opcode(version, ispypy)
@@ -194,7 +196,16 @@ def register_listing(op):
         out = _io.StringIO()
         try:
             try:
-                disassemble_file(path, outstream=out, asm_format=a["fmt"])
+                if a.get("path") == "portable":
+                    import xdis.load as L
+                    saved = L.PYTHON_MAGIC_INT
+                    L.PYTHON_MAGIC_INT = -1
+                    try:
+                        disassemble_file(path, outstream=out, asm_format=a["fmt"])
+                    finally:
+                        L.PYTHON_MAGIC_INT = saved
+                else:
+                    disassemble_file(path, outstream=out, asm_format=a["fmt"])
                 err = None
             except BaseException as e:  # noqa
                 import traceback
